@@ -206,6 +206,10 @@ def c04(tier):
             j = J("children_r%d_n%d" % (r, n), "C04_tree.c", ["-DCHILDREN", "-DRES=%d" % r, "-DN=%d" % n], unwind=52, us={"iterStepChild.0": n + 3, "cellToChildren.0": 7 ** n + 2, "_ipow.0": 6}, est=30, tier=t, mem=("M" if n == 2 else "S"),
                   bound="all valid cells of res %d, child depth %d" % (r, n))
             js.append(j)
+    for r in (0, 1, 2):
+        t = "quick" if r == 0 else "thorough"
+        j = J("lattice_r%d" % r, "C04_tree.c", ["-DLATTICE", "-DRES=%d" % r, "-DUPB=(1<<10)"], unwind=r + 3, unit_defs=UP7_DEFS, est=100 + 200 * r, mem="M", tier=t, timeout=3000, core=False, bound="all valid cells of res %d and their centre child" % r)
+        js += with_witness(j, tier=t) if r == 0 else [j]
     js += with_witness(J("children_r5_n1", "C04_tree.c", ["-DCHILDREN", "-DRES=5", "-DN=1"], unwind=52, us={"iterStepChild.0": 4, "cellToChildren.0": 9, "_ipow.0": 6}, est=30))[1:]
     return js
 
@@ -399,6 +403,8 @@ def c09(tier):
         js += with_witness(j, tier=t) if r == 0 else [j]
         j = J("lip_r%d" % r, "C09_dist.c", ["-DLIP", "-DRES=%d" % r], unwind=r + 2, us=LL, est=200 + 600 * r, tier=("quick" if r == 0 else "thorough"), mem="M", timeout=3400, bound="every (a, b, direction) of res %d" % r)
         js += with_witness(j, tier="quick") if r == 0 else [j]
+    for r in (3, 4):
+        js.append(J("lippent_r%d" % r, "C09_dist.c", ["-DLIP", "-DPENTBC", "-DRES=%d" % r], unwind=r + 2, us=LL, est=2000, tier="thorough", mem="M", timeout=3400, core=False, bound="origin on a pentagon base cell, target on another base cell, res %d, all directions" % r))
     js += up7_lemma(10, checked=True)
     for r in (0, 1, 2, 3, 4):
         t = "quick" if r <= 2 else "thorough"
